@@ -126,9 +126,32 @@ def _strip_comments(text):
 _FORBIDDEN = re.compile(r'\b(sorry|admit|native_decide|bv_decide|implemented_by)\b|^\s*axiom\s|\bunsafe\s|maxHeartbeats\s+0\b', re.M)
 
 
-def forbidden_tokens():
+def import_closure(modules):
+    """Files of this project reachable through `import Srctools.…`/`import Drv.…` from the modules."""
+    seen, todo, files = set(), list(modules), []
+    while todo:
+        m = todo.pop()
+        if m in seen:
+            continue
+        seen.add(m)
+        f = LEAN / (m.replace('.', '/') + '.lean')
+        if not f.exists():
+            continue
+        files.append(f)
+        for mm in re.finditer(r'^\s*import\s+((?:Srctools|Drv)\.[A-Za-z0-9_.]+)', f.read_text(encoding='utf-8'), re.M):
+            todo.append(mm.group(1))
+    return files
+
+
+def forbidden_tokens(modules=None):
+    """sorry/admit/axiom/native_decide/… in the import closure of the given modules (comments stripped);
+    all of lean/Srctools + lean/Drv when no modules are given."""
+    if modules is None:
+        files = list((LEAN / 'Srctools').rglob('*.lean')) + list((LEAN / 'Drv').rglob('*.lean'))
+    else:
+        files = import_closure(modules)
     hits = []
-    for p in list((LEAN / 'Srctools').rglob('*.lean')) + list((LEAN / 'Drv').rglob('*.lean')):
+    for p in files:
         txt = _strip_comments(p.read_text(encoding='utf-8'))
         for m in _FORBIDDEN.finditer(txt):
             ln = txt.count('\n', 0, m.start()) + 1
@@ -393,7 +416,14 @@ def run_check(spec, tier, seed, replay=None):
                     thms = property_theorems(spec.PROPS)
                 except OSError:
                     thms = []
-            fb = forbidden_tokens()
+            drv_mods = []
+            lf = (LEAN / 'lakefile.toml').read_text()
+            for d in spec.DRIVERS:
+                mm = re.search(r'name = "%s"\s*\nroot = "([^"]+)"' % re.escape(d), lf)
+                if mm:
+                    drv_mods.append(mm.group(1))
+            fb = forbidden_tokens([spec.PROPS] + list(getattr(spec, 'EXTRA_PROPS', [])) + drv_mods)
+            ctx.extra['audited_files'] = len(import_closure([spec.PROPS] + drv_mods))
             if fb:
                 ctx.broken.append('audit: forbidden tokens: ' + '; '.join(fb[:10]))
             if tier == 'thorough' and ok_p:
